@@ -278,5 +278,118 @@ def replay_wire(case):
     check_wire(Ctx(PROPERTY, "wire", "quick", 0, 0, 1), (backend, [tuple(c_) for c_ in cmds], home))
 
 
+# ---------------------------------------------------------------- time of check vs time of use
+# A transfer command is resolved, path-checked and permission-checked when it arrives; its worker may start much
+# later (when the data connection is made).  Commands sent in between must not change the location it addresses.
+WTREE = {"/": DIR, "/pub": DIR, "/pub/docs": DIR, "/pub/docs/a.txt": b"PUBLIC-A", "/pub/b.txt": b"PUBLIC-B", "/vault": DIR,
+         "/vault/docs": DIR, "/vault/docs/a.txt": b"SECRET-A", "/vault/b.txt": b"SECRET-B", "/docs": DIR, "/docs/a.txt": b"ROOT-A",
+         "/b.txt": b"ROOT-B"}
+BOBTREE = {"/": DIR, "/docs": DIR, "/docs/a.txt": b"BOB-A", "/b.txt": b"BOB-B", "/pub": DIR, "/pub/b.txt": b"BOB-PUB-B"}
+INTER = st.sampled_from(["CWD /vault", "CWD /pub", "CWD /", "CDUP", "USER bob", "USER anonymous", "PWD", "TYPE I", "MKD /pub/x", "CWD docs",
+                         "CWD /vault/docs", "NOOP", "MLST b.txt"])
+WINDOW = st.tuples(st.sampled_from(["/", "/pub", "/pub/docs", "/vault"]), st.sampled_from(["RETR", "LIST", "MLSD", "STOR", "APPE"]),
+                   st.sampled_from(["docs/a.txt", "b.txt", "a.txt", "docs", ".", "../b.txt", "docs/../b.txt", "/pub/b.txt", "new.bin"]),
+                   st.lists(INTER, min_size=1, max_size=3), st.sampled_from(["mem", "fs"]))
+
+
+async def _window(loop, cwd, verb, arg, inter, backend, tmp):
+    if backend == "mem":
+        base_g, base_b = pathlib.Path("/jail/guest"), pathlib.Path("/jail/bob")
+    else:
+        base_g, base_b = pathlib.Path(tmp) / "jail" / "guest", pathlib.Path(tmp) / "jail" / "bob"
+    users = [aioftp.User(base_path=base_g, permissions=[aioftp.Permission("/"), aioftp.Permission("/vault", readable=False, writable=False)]),
+             aioftp.User("bob", "secret", base_path=base_b)]
+    server = aioftp.Server(users, path_io_factory=harness.BACKENDS[backend], wait_future_timeout=5)
+    await server.start(HOST, PORT)
+    full = {"/jail": DIR}
+    for k, v in WTREE.items():
+        full["/jail/guest" + (k if k != "/" else "")] = v
+    for k, v in BOBTREE.items():
+        full["/jail/bob" + (k if k != "/" else "")] = v
+    if backend == "mem":
+        harness.mem_populate(server, dict(full, **{"/": DIR}))
+        snap = lambda: harness.mem_tree(server)  # noqa: E731
+    else:
+        harness.fs_populate(tmp, full)
+        snap = lambda: harness.fs_tree(tmp)  # noqa: E731
+    raw = Raw(HOST, PORT, patience=20)
+    await raw.connect()
+    await raw.cmd("USER anonymous")
+    c0, _ = await raw.cmd("CWD " + cwd)
+    await raw.cmd("EPSV")
+    code, _ = await raw.cmd(verb + " " + arg)
+    out = dict(first=code, cwd_code=c0, inter=[])
+    if code == "150":
+        for line in inter:
+            ci, _ = await raw.cmd(line)
+            out["inter"].append(ci)
+        dr, dw = await raw.open_data()
+        if verb in ("STOR", "APPE"):
+            dw.write(b"<uploaded>")
+            dw.close()
+        else:
+            data, eof = await read_all(dr, 20)
+            dw.close()
+            out["data"] = data
+        out["second"] = (await raw.reply())[0]
+    out["tree"] = snap()
+    raw.close()
+    await asyncio.wait_for(server.close(), 1000)
+    return out
+
+
+def check_window(ctx, case):
+    import re
+    cwd, verb, arg, inter, backend = case
+
+    def run(inter_cmds):
+        with harness.TempDirs() as td:
+            tmp = td.new() if backend != "mem" else None
+            return simnet.run(lambda loop: _window(loop, cwd, verb, arg, inter_cmds, backend, tmp))
+
+    with_inter = run(inter)
+    ctx.count(case, with_inter["first"] == "150", sample=dict(cwd=cwd, command=verb + " " + arg, sent_before_data_connection=inter,
+                                                              replies=[with_inter["first"], with_inter.get("second")], interposed_replies=with_inter["inter"]),
+              classes=["verb_" + verb, "accepted" if with_inter["first"] == "150" else "refused_" + with_inter["first"]]
+              + ["inter_" + i.split(" ")[0] for i in inter])
+    if with_inter["first"] != "150":
+        return
+    base = run([])
+
+    def norm(d):
+        if d is None:
+            return None
+        d = re.sub(rb"(Modify|Create)=\d+;", b"", d)
+        return re.sub(rb"[A-Z][a-z]{2} [ \d]\d (\d\d:\d\d| \d{4})", b"<date>", d)
+
+    detail = dict(cwd=cwd, command=verb + " " + arg, interposed=inter, backend=backend, replies=[with_inter["first"], with_inter.get("second")],
+                  baseline_replies=[base["first"], base.get("second")])
+    first_inter = inter[0].split(" ")[0]
+    if with_inter.get("second") != base.get("second"):
+        raise Violation(f"C02/window/{verb}/completion_reply_changed_by_interposed_{first_inter}", detail)
+    if verb in ("RETR", "LIST", "MLSD"):
+        if norm(with_inter.get("data")) != norm(base.get("data")):
+            raise Violation(f"C02/window/{verb}/other_location_served_after_interposed_{first_inter}",
+                            dict(detail, served=with_inter.get("data"), expected=base.get("data")))
+    else:
+        # the uploaded marker must land exactly where it lands without the interposed commands
+        def where(tree):
+            return sorted(k for k, v in tree.items() if v != DIR and b"<uploaded>" in v)
+        # interposed MKD legitimately adds a directory: compare the files that carry the marker, and all other files
+        if where(with_inter["tree"]) != where(base["tree"]):
+            raise Violation(f"C02/window/{verb}/stored_at_another_location_after_interposed_{first_inter}",
+                            dict(detail, stored_at=where(with_inter["tree"]), expected=where(base["tree"])))
+
+
+def part_window(ctx):
+    n = 150 if ctx.tier == "quick" else 4000
+    hyp_run(ctx, WINDOW, lambda c: check_window(ctx, c), n, name="window")
+
+
+def replay_window(case):
+    from vlib.runner import Ctx
+    check_window(Ctx(PROPERTY, "window", "quick", 0, 0, 1), tuple(case))
+
+
 def plan(tier):
-    return [("paths", 6), ("cwdwalk", 2), ("wire", 8)]
+    return [("paths", 6), ("cwdwalk", 2), ("wire", 6), ("window", 4)]
